@@ -200,7 +200,7 @@ PROPS = {
                             mc("Timers-idle-1x2", clients=("c1",), maxops=2, ops=("send", "stop", "drop"), scripts="ScriptsPlain", cfgs="CfgsTimers", horizon=8, idle=True),
                             mc("Timers-cancel-1x2", clients=("c1",), maxops=2, ops=("send", "stop"), scripts="ScriptsFail", cfgs="CfgsTimers", horizon=4, faults=("cancel",), maxfaults=1)]},
         "gen": {"quick": [gen("g-timer-2x1", "Main_Addr2_Timer", maxops=1, ops=("send", "stop", "drop"), horizon=4)], "thorough": [gen("g-timer-2x2", "Main_Addr2_Timer", ops=("send", "stop", "drop"), horizon=4)]},
-        "families": [("timers", 300, 3000), ("mix", 120, 1200)],
+        "families": [("timers", 300, 3000), ("stream", 150, 1500), ("mix", 120, 1200)],
         "relevant": r'timer_fire', "relevant_min": 1,
     },
     "C11": {
